@@ -358,4 +358,192 @@ theorem eraseAll_length (l : List α) (idxs : List Nat) (hn : idxs.Nodup) (hb : 
   simp only [Bool.not_eq_true, Bool.decide_eq_false] at h3
   omega
 
+
+/-! ## text effect of the auto-commit -/
+
+/-- the commit that may follow an edit does not filter lines: auto-commit is off, or
+`ignore_blank_lines` is off -/
+def NoFilter (s : S) : Prop := s.auto = false ∨ s.cfg.ignoreBlank = false
+
+theorem commit_texts_noignore (s : S) (h : s.cfg.ignoreBlank = false) : (commit s).texts = s.texts :=
+  bootstrap_texts_noignore s.cfg s.texts h
+
+theorem autoCommit_texts (s : S) (h : NoFilter s) : (autoCommit s).texts = s.texts := by
+  unfold autoCommit
+  split
+  · rename_i ha
+    rcases h with h | h
+    · rw [h] at ha; cases ha
+    · exact commit_texts_noignore s h
+  · rfl
+
+theorem autoCommit_off (s : S) (h : s.auto = false) : autoCommit s = s := by
+  simp [autoCommit, h]
+
+theorem autoCommit_on (s : S) (h : s.auto = true) : autoCommit s = commit s := by
+  simp [autoCommit, h]
+
+/-! ## errors -/
+
+theorem step_error_unchanged (s : S) (op : Op) (e : Err) (h : (step s op).2 = .error e) :
+    (step s op).1 = s := by
+  revert h
+  cases op <;> unfold step <;> dsimp only
+  all_goals repeat' split
+  all_goals first
+    | exact fun _ => rfl
+    | (intro h; cases h)
+
+/-- with auto-commit off the committed tree is only replaced by `commit` -/
+theorem step_tree_unchanged (s : S) (op : Op) (ha : s.auto = false) (hop : op ≠ .commit) :
+    (step s op).1.tree = s.tree := by
+  cases op <;> unfold step <;> dsimp only
+  all_goals repeat' split
+  all_goals first
+    | rfl
+    | (simp [autoCommit, ha]; done)
+    | exact absurd rfl hop
+
+/-! ## stale -/
+
+theorem step_stale_keeps (s : S) (op : Op) (ha : s.auto = false) (hs : s.stale = true) (hop : op ≠ .commit) :
+    (step s op).1.stale = true := by
+  cases op <;> unfold step <;> dsimp only
+  all_goals repeat' split
+  all_goals first
+    | exact hs
+    | (simp [autoCommit, ha, hs]; done)
+    | exact absurd rfl hop
+
+theorem run_stale_keeps (s : S) (ops : List Op) (ha : s.auto = false) (hs : s.stale = true)
+    (hop : ∀ op ∈ ops, op ≠ .commit) : (run s ops).stale = true := by
+  induction ops generalizing s with
+  | nil => exact hs
+  | cons op ops ih =>
+    simp only [run]
+    apply ih
+    · rw [(step_frame s op).2.1, ha]
+    · exact step_stale_keeps s op ha hs (hop op (by simp))
+    · exact fun o ho => hop o (by simp [ho])
+
+
+/-! ## append_to_family: where the line goes -/
+
+/-- a line classified against its own indent is at level 0 -/
+theorem cfi_self (w : Nat) (t : T) (i : Nat) (c : Int)
+    (h : cfi w (indentOf t i) (t.texts.getD i []) = some c) : c = 0 := by
+  unfold cfi indentOf at h
+  dsimp only at h
+  split at h
+  · cases h
+  · split at h
+    · cases h
+    · simp at h; exact h.symm
+
+/-- target with children, new line not at the target's own indent: success means the
+line is one level deeper and goes directly after the last descendant -/
+theorem appendIndex_child_level (t : T) (w self : Nat) (s : Str) (idx : Nat)
+    (hk : children t self ≠ []) (h : appendIndex t w self s = .ok idx)
+    (h0 : cfi w (indentOf t self) s ≠ some 0) :
+    idx = familyEndpoint t self + 1 ∧ cfi w (indentOf t self) s = some 1 := by
+  unfold appendIndex at h
+  dsimp only at h
+  rw [if_neg (by simpa using hk)] at h
+  split at h
+  · rename_i c ifi hc hifi
+    split at h
+    · rename_i hz; rw [hifi, hz] at h0; exact absurd rfl h0
+    · split at h
+      · cases h
+      · rename_i selfc hselfc
+        have := cfi_self w t self selfc hselfc
+        subst this
+        split at h
+        · split at h
+          · cases h
+          · rename_i h1 h2
+            injection h with h
+            refine ⟨h.symm, ?_⟩
+            rw [hifi]; congr 1; omega
+        · cases h
+  · cases h
+
+/-- target with children, new line at the target's own indent (known finding F10b):
+the code inserts at `self + |children|` -/
+theorem appendIndex_same_indent (t : T) (w self : Nat) (s : Str) (idx : Nat)
+    (hk : children t self ≠ []) (h : appendIndex t w self s = .ok idx)
+    (h0 : cfi w (indentOf t self) s = some 0) :
+    idx = self + (children t self).length := by
+  unfold appendIndex at h
+  dsimp only at h
+  rw [if_neg (by simpa using hk)] at h
+  split at h
+  · rename_i c ifi hc hifi
+    rw [h0] at hifi
+    injection hifi with hifi
+    subst hifi
+    simp at h
+    exact h.symm
+  · cases h
+
+/-- childless target: the new line is at the target's indent (after the last sibling, or
+after the last line of the same level when there is no sibling) or one level deeper
+(after `last_parent_linenums[0]`) -/
+theorem appendIndex_childless (t : T) (w self : Nat) (s : Str) (idx : Nat)
+    (hk : children t self = []) (h : appendIndex t w self s = .ok idx) :
+    (cfi w (indentOf t self) s = some 0 ∧
+      ((siblings t self ≠ [] ∧ idx = ((siblings t self).getLast?).getD self + 1) ∨
+       (siblings t self = [] ∧ ∃ l, lastFamilyLinenum t w self = some l ∧ idx = l + 1))) ∨
+    (cfi w (indentOf t self) s = some 1 ∧ ∃ lp, lastParentLinenum0 t w self = some lp ∧ idx = lp + 1) := by
+  unfold appendIndex at h
+  dsimp only at h
+  rw [if_pos (by simp [hk])] at h
+  split at h
+  · rename_i lp this nfi hlp hthis hnfi
+    have := cfi_self w t self this hthis
+    subst this
+    split at h
+    · rename_i heq
+      left
+      refine ⟨by rw [hnfi, ← heq], ?_⟩
+      split at h
+      · rename_i hs
+        left
+        injection h with h
+        exact ⟨by simpa using hs, h.symm⟩
+      · rename_i hs
+        right
+        refine ⟨by simpa using hs, ?_⟩
+        split at h
+        · rename_i l hl
+          injection h with h
+          exact ⟨l, hl, h.symm⟩
+        · cases h
+    · split at h
+      · rename_i h1
+        right
+        injection h with h
+        refine ⟨by rw [hnfi, ← h1]; rfl, lp, hlp, h.symm⟩
+      · cases h
+  · cases h
+
+/-- on success the new line sits at the target's indent or exactly one level deeper -/
+theorem appendIndex_level (t : T) (w self : Nat) (s : Str) (idx : Nat)
+    (h : appendIndex t w self s = .ok idx) :
+    cfi w (indentOf t self) s = some 0 ∨ cfi w (indentOf t self) s = some 1 := by
+  by_cases hk : children t self = []
+  · rcases appendIndex_childless t w self s idx hk h with h | h
+    · exact .inl h.1
+    · exact .inr h.1
+  · by_cases h0 : cfi w (indentOf t self) s = some 0
+    · exact .inl h0
+    · exact .inr (appendIndex_child_level t w self s idx hk h h0).2
+
+/-- the last line of a family lies inside the config -/
+theorem familyEndpoint_lt_size {t : T} (hf : Forest t) {i : Nat} (hi : i < t.size) :
+    familyEndpoint t i < t.size := by
+  rcases List.mem_cons.mp (familyEndpoint_max hf i).1 with h | h
+  · rw [h]; exact hi
+  · exact ancestors_lt_size hf ((mem_allChildren hf).mp h)
+
 end Ccp.Edit
